@@ -132,6 +132,7 @@ pub fn c11_case(fam: &str, idx: usize, seed: u64) -> Option<Case> {
                 probe: true,
                 final_reports: false,
                 plant: vec![],
+        dropper: None,
             };
             // loss within the hypothesis: at most 3 drops per unordered pair of entities (limit 4), plus dups / delays
             for a in 0..n_ent {
